@@ -111,6 +111,9 @@ VF_MAIN
     VF_ASSERT(fn_calls_after_fail == 0, "input fn not called again after it reported failure (C18)");
     if (fn_failed) VF_ASSERT(soxr_error(p) != 0, "failure of the input fn puts the resampler in the error state (C18)");
     if (fn_ended && !was_err) VF_ASSERT(p->flushing, "end-of-input from the input fn is latched (C18)");
+    if (fn_ended && !was_err && odone < olen) for (c = 0; c < VF_CH; ++c)
+      VF_ASSERT(vf_objs[c].flushing && vf_objs[c].proc_after_flush && vf_objs[c].out_after_flush,
+          "once the input fn has reported end-of-input the same call goes on to drain: every engine is flushed and asked for output again (C03/C08/C18)");
     if (!was_err && !fn_failed) for (c = 0; c < VF_CH; ++c)
       VF_ASSERT(eng_taken(c) == fn_supplied, "everything the input fn supplied is handed to the engine exactly once (C18)");
     for (c = 0; c < VF_CH; ++c)
